@@ -7,6 +7,12 @@
 //! Idempotence = immediate repeats; determinism = the store is forked twice and the same request
 //! must render the same summary text on both forks. Concurrent cases: 2–8 threads call auto /
 //! schedule on one thread under seeded noise; the recorded log is judged afterwards.
+//! Same-cut cases: 2–4 auto / schedule requests for ONE cut point (thread with / without earlier
+//! checkpoints, optional pending job) — over HTTP with every job spawned before any of them runs and
+//! the runs then released one at a time, over HTTP back to back, or from threads started together.
+//! Oracle over the log (all case kinds): every auto summary names a base of a strictly earlier cut
+//! and reports the matching delta window, and two summaries of one cut whose jobs saw the same
+//! earlier checkpoints have identical text.
 
 use crate::fixture::{runtime, wait_for, App, Store};
 use crate::gen_hist::{exec, pick_kind, Known, OpKind};
@@ -21,7 +27,7 @@ use ripd::{
 use serde_json::{json, Value};
 use std::collections::{BTreeMap, BTreeSet, HashMap};
 use std::sync::Arc;
-use std::time::Duration;
+use std::time::{Duration, Instant};
 
 const JOB_KIND: &str = "compaction_summarizer_v1";
 const SIG_CACHE_LOST: &str = "C09/concurrent/answers_differ_from_truth_after/checkpoint_cache_lost_frames";
@@ -362,6 +368,248 @@ fn frames_json(fs: &[&Frame]) -> Value {
 
 fn frames_brief(fs: &[&Frame]) -> Vec<String> {
     fs.iter().map(|f| format!("{}#{}", f.ty().trim_start_matches("continuity_"), f.seq())).collect()
+}
+
+// ---------------------------------------------------------------------------------------------
+// summaries as a function of the history (oracle over one thread's frames + summary artifacts)
+
+struct SumInfo {
+    md: String,
+    /// basis.base_summary_artifact_id
+    base: Option<String>,
+    /// basis.note ("bootstrap_from_truth…" = the base was not usable, the summary restarts at seq 0)
+    note: Option<String>,
+    /// provenance.produced_by = {type: "job", id}
+    job: Option<String>,
+    /// "- delta_message_count: N" of the markdown header
+    delta: Option<u64>,
+}
+
+fn sum_info(store: &Store, art: &str) -> Option<SumInfo> {
+    let b = blob_json(store, art)?;
+    let md = b.get("summary_markdown")?.as_str()?.to_string();
+    let st = |p: &str| b.pointer(p).and_then(|x| x.as_str()).map(|s| s.to_string());
+    let job = if st("/provenance/produced_by/type").as_deref() == Some("job") { st("/provenance/produced_by/id") } else { None };
+    let delta = md.lines().take(24).find_map(|l| l.strip_prefix("- delta_message_count: ")).and_then(|x| x.trim().parse::<u64>().ok());
+    Some(SumInfo {
+        md,
+        base: st("/basis/base_summary_artifact_id"),
+        note: st("/basis/note"),
+        job,
+        delta,
+    })
+}
+
+#[derive(Default)]
+struct SumSeen {
+    judged: u64,
+    pairs_equal: u64,
+}
+
+/// The summary of an auto-created checkpoint is a function of the history it covers: the messages
+/// up to its cut and the checkpoints of earlier cuts (ADR-0014: the base is a prior cumulative
+/// checkpoint, `to_seq` strictly less; the delta is read after the base's coverage end).
+/// * per summary: the base it names covers a strictly earlier cut; a base is named when an earlier
+///   cut was checkpointed before the job was spawned; the delta window it reports is the number of
+///   messages in (base.to_seq, to_seq] (all messages up to to_seq when it restarts from truth);
+/// * per pair of auto summaries of ONE cut whose jobs saw the same earlier checkpoints (no
+///   checkpoint frame with a smaller to_seq lies between the earlier job's spawn frame and the
+///   later checkpoint frame): identical summary text.
+fn judge_summary_history(r: &mut Report, store: &Store, fs: &[&Frame], cache_lossy: bool, stats: &mut Stats, wit: &dyn Fn(Value) -> Value) -> SumSeen {
+    struct Auto {
+        idx: usize,
+        spawn_idx: usize,
+        to_seq: u64,
+        rule: String,
+        art: String,
+        info: SumInfo,
+    }
+    let mut seen = SumSeen::default();
+    let mut msg_seqs: Vec<u64> = Vec::new();
+    let mut spawn_at: HashMap<&str, usize> = HashMap::new();
+    // (index in the stream, to_seq, artifact)
+    let mut cks: Vec<(usize, u64, &str)> = Vec::new();
+    for (i, f) in fs.iter().enumerate() {
+        match f.ty() {
+            "continuity_message_appended" => msg_seqs.push(f.seq()),
+            "continuity_job_spawned" if f.s("job_kind") == JOB_KIND => {
+                spawn_at.entry(f.s("job_id")).or_insert(i);
+            }
+            "continuity_compaction_checkpoint_created" => cks.push((i, f.u("to_seq").unwrap_or(u64::MAX), f.s("summary_artifact_id"))),
+            _ => {}
+        }
+    }
+    let msgs_in = |lo_excl: u64, hi_incl: u64| msg_seqs.iter().filter(|s| **s > lo_excl && **s <= hi_incl).count() as u64;
+    let mut autos: Vec<Auto> = Vec::new();
+    let mut seen_art: BTreeSet<&str> = BTreeSet::new();
+    for &(idx, to_seq, art) in &cks {
+        if to_seq == u64::MAX || !seen_art.insert(art) {
+            continue;
+        }
+        // unreadable artifacts are judged by check_summary where the frame is judged
+        let Some(info) = sum_info(store, art) else {
+            continue;
+        };
+        // only summaries written by a summarizer job of this thread whose frames we hold
+        let Some(spawn_idx) = info.job.as_deref().and_then(|j| spawn_at.get(j)).copied() else {
+            continue;
+        };
+        if spawn_idx >= idx {
+            continue;
+        }
+        autos.push(Auto {
+            idx,
+            spawn_idx,
+            to_seq,
+            rule: fs[idx].s("cut_rule_id").to_string(),
+            art: art.to_string(),
+            info,
+        });
+    }
+    let head = |t: &str| t.chars().take(1200).collect::<String>();
+    // per summary
+    for a in &autos {
+        seen.judged += 1;
+        stats.c("auto_summaries_base_and_delta_window_judged");
+        let lower_before_spawn = cks.iter().filter(|c| c.0 < a.spawn_idx && c.1 < a.to_seq).count();
+        let w = |d: Value| {
+            wit(json!({"oracle": "summary_history", "checkpoint_frame": fs[a.idx].v, "summary_head": head(&a.info.md),
+                       "basis": {"base_summary_artifact_id": a.info.base, "note": a.info.note}, "more": d}))
+        };
+        let mut base_to_seq: Option<u64> = None;
+        match &a.info.base {
+            Some(base) => {
+                stats.c("auto_summaries_with_a_base");
+                // which cut does the base cover? the checkpoint frame that references it says so;
+                // failing that, the base artifact's own coverage
+                base_to_seq = cks
+                    .iter()
+                    .filter(|c| c.2 == base.as_str() && c.0 < a.idx)
+                    .map(|c| c.1)
+                    .last()
+                    .or_else(|| blob_json(store, base).and_then(|b| b.pointer("/coverage/to_seq").and_then(|x| x.as_u64())));
+                match base_to_seq {
+                    Some(b) if b >= a.to_seq => {
+                        let class = if b == a.to_seq { "base_covers_same_cut" } else { "base_covers_later_cut" };
+                        r.violation(
+                            &format!("C09/summary_base_not_below_cut/{class}"),
+                            &format!(
+                                "the summary of the auto checkpoint at to_seq {} names as its base a summary that covers to_seq {b}: the base of a cumulative summary is a checkpoint of a strictly earlier cut, so the same cut is summarised differently depending on whether it was summarised before",
+                                a.to_seq
+                            ),
+                            w(json!({"base_to_seq": b, "delta_message_count": a.info.delta})),
+                        );
+                        continue;
+                    }
+                    Some(_) => {}
+                    None => stats.c("auto_summaries_base_cut_unresolved"),
+                }
+            }
+            None => {
+                if lower_before_spawn > 0 {
+                    if cache_lossy {
+                        stats.c("auto_summaries_base_absence_not_judged_checkpoint_cache_lossy");
+                    } else {
+                        r.violation(
+                            "C09/summary_base_missing/earlier_cut_checkpointed_before_job_spawned",
+                            &format!(
+                                "the summary of the auto checkpoint at to_seq {} names no base although {lower_before_spawn} checkpoint frame(s) of earlier cuts precede its job's spawn frame",
+                                a.to_seq
+                            ),
+                            w(json!({"earlier_checkpoints_before_spawn": lower_before_spawn})),
+                        );
+                        continue;
+                    }
+                }
+            }
+        }
+        // delta window
+        let restart = a.info.base.is_none() || a.info.note.as_deref().map(|n| n.starts_with("bootstrap_from_truth")).unwrap_or(false);
+        let lo = if restart { Some(0) } else { base_to_seq };
+        if let (Some(lo), Some(delta)) = (lo, a.info.delta) {
+            let want = msgs_in(lo, a.to_seq);
+            if delta != want {
+                r.violation(
+                    &format!("C09/summary_delta_window_wrong/{}", if restart { "from_truth" } else { "after_base" }),
+                    &format!(
+                        "the summary of the auto checkpoint at to_seq {} reports delta_message_count {delta}; the thread has {want} messages in ({lo}, {}]",
+                        a.to_seq, a.to_seq
+                    ),
+                    w(json!({"window_start_exclusive": lo, "expected": want})),
+                );
+                continue;
+            }
+            stats.c("auto_summaries_delta_window_equal_to_truth");
+        }
+    }
+    // per pair of summaries of one cut
+    let mut by_cut: BTreeMap<u64, Vec<&Auto>> = BTreeMap::new();
+    for a in &autos {
+        by_cut.entry(a.to_seq).or_default().push(a);
+    }
+    let strip_rule = |t: &str| -> String {
+        t.lines()
+            .enumerate()
+            .filter(|(i, l)| !(*i < 24 && (l.starts_with("- cut_rule_id: ") || l.starts_with("- stride_messages: "))))
+            .map(|(_, l)| l)
+            .collect::<Vec<_>>()
+            .join("\n")
+    };
+    for (cut, group) in &by_cut {
+        if group.len() < 2 {
+            continue;
+        }
+        stats.c("cuts_summarised_by_more_than_one_job");
+        let group = &group[..group.len().min(12)];
+        for (i, a) in group.iter().enumerate() {
+            for b in &group[i + 1..] {
+                // a.idx < b.idx (stream order)
+                let start = a.spawn_idx.min(b.spawn_idx);
+                let moved = cks.iter().any(|c| c.1 < *cut && c.0 > start && c.0 < b.idx);
+                if moved {
+                    stats.c("same_cut_summary_pairs_not_comparable_earlier_cut_checkpointed_meanwhile");
+                    continue;
+                }
+                let lower = cks.iter().filter(|c| c.1 < *cut && c.0 < start).count();
+                let (ta, tb) = if a.rule == b.rule { (a.info.md.clone(), b.info.md.clone()) } else { (strip_rule(&a.info.md), strip_rule(&b.info.md)) };
+                if ta == tb {
+                    seen.pairs_equal += 1;
+                    stats.c("same_cut_summary_pairs_text_equal");
+                    stats.n("same_cut_summary_text_bytes_compared", ta.len() as u64);
+                    r.distinct_str(&format!("sc|{}|{}|{}", group.len().min(5), lower.min(3), a.info.base.is_some()));
+                    continue;
+                }
+                if cache_lossy && a.info.base != b.info.base {
+                    stats.c("same_cut_summary_pairs_not_judged_checkpoint_cache_lossy");
+                    continue;
+                }
+                r.violation(
+                    &format!("C09/summary_differs_for_same_history/repeated_cut/{}", if lower == 0 { "no_earlier_checkpoint" } else { "with_earlier_checkpoints" }),
+                    &format!(
+                        "two summarizer jobs checkpointed the cut at to_seq {cut}; the messages up to the cut are the same and no checkpoint of an earlier cut was appended between the earlier job's spawn frame and the later checkpoint frame ({lower} earlier-cut checkpoint(s) before both), yet the two summary texts differ"
+                    ),
+                    wit(json!({"oracle": "summary_history", "to_seq": cut,
+                        "first": {"checkpoint_frame": fs[a.idx].v, "job_spawned_at_stream_index": a.spawn_idx, "artifact": a.art,
+                                  "basis": {"base_summary_artifact_id": a.info.base, "note": a.info.note}, "summary_head": head(&normalise(&a.info.md))},
+                        "second": {"checkpoint_frame": fs[b.idx].v, "job_spawned_at_stream_index": b.spawn_idx, "artifact": b.art,
+                                   "basis": {"base_summary_artifact_id": b.info.base, "note": b.info.note}, "summary_head": head(&normalise(&b.info.md))}})),
+                );
+            }
+        }
+    }
+    seen
+}
+
+/// Checkpoint ids of the log that the derived checkpoint cache (<thread>.comp.v1.jsonl) lacks.
+fn comp_cache_lost(store: &Store, thread: &str, m: &Model) -> Vec<String> {
+    let path = store.streams_dir().join(format!("{thread}.comp.v1.jsonl"));
+    match std::fs::read(&path).ok().and_then(|b| truth::parse_log(&b).ok()) {
+        Some(side) => {
+            let have: BTreeSet<String> = side.iter().map(|f| f.s("checkpoint_id").to_string()).collect();
+            m.ckpts.iter().filter(|c| !have.contains(&c.id)).map(|c| c.id.clone()).collect()
+        }
+        None => vec![],
+    }
 }
 
 // ---------------------------------------------------------------------------------------------
@@ -1632,6 +1880,14 @@ fn sequential_case(cfg: &Cfg, r: &mut Report, rt: &tokio::runtime::Runtime, rng:
                 );
             }
             stats.n("frames_in_judged_logs", frames.len() as u64);
+            // every auto summary of the history: base strictly below its cut, delta window, and equal
+            // text where one cut was summarised more than once (HTTP jobs run in the background)
+            if let Some(m) = model_of(&frames, &ctx.thread) {
+                let fs = truth::stream(&frames, "continuity", &ctx.thread);
+                let lossy = !comp_cache_lost(&store, &ctx.thread, &m).is_empty();
+                let wit = |d: Value| json!({"case": idx, "mode": "sequential", "initial_messages": n0, "detail": d});
+                judge_summary_history(r, &store, &fs, lossy, stats, &wit);
+            }
         }
         Err(e) => r.inconclusive(&format!("case {idx}: final log unreadable: {}", e.detail)),
     }
@@ -1787,33 +2043,67 @@ fn concurrent_case(cfg: &Cfg, r: &mut Report, rt: &tokio::runtime::Runtime, s: &
     }
     let events = s.take_events();
     s.reset();
-    r.eval();
     stats.c("concurrent_histories");
     stats.n("concurrent_calls", calls.len() as u64);
-    let wit = |d: Value| json!({"case": idx, "mode": "concurrent", "threads": threads, "strides": strides, "noise_us": noise,
-        "appender": appender, "initial_messages": n0, "detail": d});
+    let meta = json!({"case": idx, "mode": "concurrent", "threads": threads, "strides": strides, "noise_us": noise,
+        "appender": appender, "initial_messages": n0});
+    let _ = judge_jobs(r, &ctx, stats, &calls, panicked, baseline, &strides, &events, &BTreeSet::new(), &meta);
+}
+
+/// What `judge_jobs` saw (for the caller's own counters).
+#[derive(Default)]
+struct JobsSeen {
+    jobs: usize,
+    cuts_checkpointed_more_than_once: u64,
+    same_cut_pairs_equal: u64,
+}
+
+/// Judge the recorded log of a phase in which several auto / schedule calls ran on one thread
+/// (concurrently, or spawned first and run later): job bracketing, plans, created checkpoints,
+/// summaries as a function of the history, and the read side afterwards.
+#[allow(clippy::too_many_arguments)]
+fn judge_jobs(
+    r: &mut Report,
+    ctx: &Ctx,
+    stats: &mut Stats,
+    calls: &[(Value, Result<Value, String>)],
+    panicked: bool,
+    baseline: usize,
+    strides: &[u64],
+    events: &[crate::sched::Ev],
+    manual: &BTreeSet<String>,
+    meta: &Value,
+) -> Option<JobsSeen> {
+    let store = ctx.store;
+    let thread = ctx.thread.clone();
+    r.eval();
+    let wit = |d: Value| {
+        let mut w = meta.clone();
+        w["detail"] = d;
+        w
+    };
     if panicked {
         r.violation("C09/concurrent/caller_panicked", "a thread calling auto/schedule panicked", wit(json!(null)));
-        return;
+        return None;
     }
     let frames = match truth::parse_log(&store.log_bytes_settled()) {
         Ok(f) => f,
         Err(e) => {
             r.violation(&format!("C09/concurrent/log_invalid/{}", e.kind), &e.detail, wit(json!(e.detail)));
-            return;
+            return None;
         }
     };
     if let Err(e) = truth::check_streams(&frames) {
         r.violation(&format!("C09/concurrent/log_invalid/{}", e.kind), &e.detail, wit(json!(e.detail)));
-        return;
+        return None;
     }
     let Some(m) = model_of(&frames, &thread) else {
-        return;
+        return None;
     };
     let fs = truth::stream(&frames, "continuity", &thread);
     // which jobs were deliberately left pending (execute=false)
     let mut pending_ok: BTreeSet<String> = BTreeSet::new();
-    for (d, res) in &calls {
+    for (d, res) in calls {
         match res {
             Err(e) => {
                 r.violation(
@@ -1821,7 +2111,7 @@ fn concurrent_case(cfg: &Cfg, r: &mut Report, rt: &tokio::runtime::Runtime, s: &
                     &format!("a concurrent auto/schedule call failed: {e}"),
                     wit(json!({"request": d, "error": e})),
                 );
-                return;
+                return None;
             }
             Ok(v) => {
                 let stride = d.get("stride").and_then(|x| x.as_u64()).unwrap_or(1);
@@ -1832,7 +2122,7 @@ fn concurrent_case(cfg: &Cfg, r: &mut Report, rt: &tokio::runtime::Runtime, s: &
                             &format!("a response planned ordinal {o} seq {sq} id {id}, which is not the {o}-th message / a multiple of stride {stride}"),
                             wit(json!({"request": d, "response": v})),
                         );
-                        return;
+                        return None;
                     }
                 }
                 let state = v.get("decision").or_else(|| v.get("status")).and_then(|x| x.as_str()).unwrap_or("");
@@ -1843,7 +2133,7 @@ fn concurrent_case(cfg: &Cfg, r: &mut Report, rt: &tokio::runtime::Runtime, s: &
                         &format!("a summarizer job failed under concurrency: {:?}", v.get("error")),
                         wit(json!({"request": d, "response": v})),
                     );
-                    return;
+                    return None;
                 }
                 if state == "scheduled" && d.get("execute").and_then(|x| x.as_bool()) == Some(false) {
                     if let Some(j) = v.get("job_id").and_then(|x| x.as_str()) {
@@ -1876,17 +2166,17 @@ fn concurrent_case(cfg: &Cfg, r: &mut Report, rt: &tokio::runtime::Runtime, s: &
                 };
                 if jobs.insert(f.s("job_id").to_string(), j).is_some() {
                     r.violation("C09/concurrent/job_not_bracketed", "two job_spawned frames carry one job id", wit(json!(f.v)));
-                    return;
+                    return None;
                 }
             }
             "continuity_job_ended" => {
                 let Some(j) = jobs.get_mut(f.s("job_id")) else {
                     r.violation("C09/concurrent/job_not_bracketed", "job_ended without an earlier job_spawned", wit(json!(f.v)));
-                    return;
+                    return None;
                 };
                 if j.ended_at.is_some() {
                     r.violation("C09/concurrent/job_not_bracketed", "a job ended twice", wit(json!(f.v)));
-                    return;
+                    return None;
                 }
                 j.ended_at = Some(i);
                 j.status = f.s("status").to_string();
@@ -1916,17 +2206,17 @@ fn concurrent_case(cfg: &Cfg, r: &mut Report, rt: &tokio::runtime::Runtime, s: &
     for (id, j) in &jobs {
         if j.ended_at.is_none() && !pending_ok.contains(id) {
             r.violation("C09/concurrent/job_not_bracketed", &format!("job {id} was executed but never ended"), wit(json!({"job": id})));
-            return;
+            return None;
         }
         if j.ended_at.is_some() && j.status != "completed" {
             let err = j.ended_at.and_then(|i| fs[i].v.get("error")).and_then(|x| x.as_str()).unwrap_or("");
             r.violation(if is_torn_read(err) { SIG_TORN_READ } else { "C09/concurrent/job_failed" }, &format!("job {id} ended with status {}", j.status), wit(json!({"job": id})));
-            return;
+            return None;
         }
         for (o, sq, mid) in &j.planned {
             if !m.is_cut_point(j.stride, *o, *sq, mid) {
                 r.violation("C09/concurrent/planned_not_a_cut_point", &format!("job {id} planned ordinal {o} seq {sq}: not a stride-{} cut point", j.stride), wit(json!({"job": id})));
-                return;
+                return None;
             }
         }
         if j.ended_at.is_some() {
@@ -1962,7 +2252,7 @@ fn concurrent_case(cfg: &Cfg, r: &mut Report, rt: &tokio::runtime::Runtime, s: &
                     &format!("job {id} created {got:?} but planned (ascending) {want:?}"),
                     wit(json!({"job": id})),
                 );
-                return;
+                return None;
             }
         }
         for c in &j.created {
@@ -1976,12 +2266,16 @@ fn concurrent_case(cfg: &Cfg, r: &mut Report, rt: &tokio::runtime::Runtime, s: &
         if f.ty() != "continuity_compaction_checkpoint_created" {
             continue;
         }
+        if manual.contains(f.s("checkpoint_id")) {
+            // a manual checkpoint the workload itself placed during the phase
+            continue;
+        }
         n_ck += 1;
         let to_seq = f.u("to_seq").unwrap_or(u64::MAX);
         *per_cut.entry(to_seq).or_insert(0) += 1;
         let Some(jid) = owner.get(f.s("checkpoint_id")) else {
             r.violation("C09/concurrent/checkpoint_outside_job", "a checkpoint frame is listed by no job_ended", wit(json!(f.v)));
-            return;
+            return None;
         };
         let j = &jobs[jid];
         let inside = i > j.spawned_at && j.ended_at.map(|e| i < e).unwrap_or(false);
@@ -1992,31 +2286,26 @@ fn concurrent_case(cfg: &Cfg, r: &mut Report, rt: &tokio::runtime::Runtime, s: &
                 &format!("checkpoint to_seq {to_seq}: inside its job's bracket: {inside}, on a planned cut: {planned}"),
                 wit(json!(f.v)),
             );
-            return;
+            return None;
         }
         let prev = last_in_job.insert(jid.clone(), to_seq);
         if prev.map(|p| p >= to_seq).unwrap_or(false) {
             r.violation("C09/concurrent/checkpoint_order", "checkpoints of one job are not in ascending to_seq order", wit(json!(f.v)));
-            return;
+            return None;
         }
-        if let Err((kind, msg)) = check_summary(&store, &thread, f.s("summary_artifact_id"), to_seq, f.s("to_message_id")) {
+        if let Err((kind, msg)) = check_summary(store, &thread, f.s("summary_artifact_id"), to_seq, f.s("to_message_id")) {
             r.violation(&format!("C09/concurrent/{kind}"), &msg, wit(json!(f.v)));
-            return;
+            return None;
         }
         stats.c("summary_artifacts_verified");
     }
     // afterwards the read side equals the truth model. A mismatch is classified by what the
     // checkpoint cache (<thread>.comp.v1.jsonl) holds compared with the log.
-    let cache_lost: Vec<String> = {
-        let path = store.streams_dir().join(format!("{thread}.comp.v1.jsonl"));
-        match std::fs::read(&path).ok().and_then(|b| truth::parse_log(&b).ok()) {
-            Some(side) => {
-                let have: BTreeSet<String> = side.iter().map(|f| f.s("checkpoint_id").to_string()).collect();
-                m.ckpts.iter().filter(|c| !have.contains(&c.id)).map(|c| c.id.clone()).collect()
-            }
-            None => vec![],
-        }
-    };
+    let cache_lost: Vec<String> = comp_cache_lost(store, &thread, &m);
+    // summaries as a function of the history (several jobs may have summarised one cut). Judged
+    // before the read side so that a read-side finding cannot hide it; a lossy checkpoint cache
+    // (the read-side finding below) is not blamed on the summarizer.
+    let sum_seen = judge_summary_history(r, store, &fs, !cache_lost.is_empty(), stats, &wit);
     let ord_records: Option<u64> = std::fs::metadata(store.streams_dir().join(format!("{thread}.mr.msgord.v1.bin")))
         .ok()
         .map(|md| md.len().saturating_sub(32) / 24);
@@ -2035,9 +2324,9 @@ fn concurrent_case(cfg: &Cfg, r: &mut Report, rt: &tokio::runtime::Runtime, s: &
         ord_records,
         m.count()
     );
-    for stride in &strides {
+    for stride in strides {
         for http in [false, true] {
-            match call_status(&ctx, &thread, Some(*stride), http) {
+            match call_status(ctx, &thread, Some(*stride), http) {
                 Ok(v) => {
                     if let Some(what) = status_mismatch(&m, *stride, &v) {
                         r.violation(
@@ -2045,16 +2334,16 @@ fn concurrent_case(cfg: &Cfg, r: &mut Report, rt: &tokio::runtime::Runtime, s: &
                             &format!("after the concurrent phase compaction.status {}: {}{}", what.0, what.1, lost_note),
                             wit(json!({"stride": stride, "response": v, "checkpoints_missing_in_cache": cache_lost})),
                         );
-                        return;
+                        return None;
                     }
                 }
                 Err(e) => {
                     r.violation("C09/concurrent/status_failed_after", &e, wit(json!(e)));
-                    return;
+                    return None;
                 }
             }
         }
-        match call_cut_points(&ctx, &thread, Some(*stride), Some(32), false) {
+        match call_cut_points(ctx, &thread, Some(*stride), Some(32), false) {
             Ok(v) => {
                 let expect = m.cut_points(*stride, 32);
                 let got: Vec<(u64, bool, Option<String>)> = v
@@ -2079,12 +2368,12 @@ fn concurrent_case(cfg: &Cfg, r: &mut Report, rt: &tokio::runtime::Runtime, s: &
                         &format!("after the concurrent phase cut_points (to_seq, already_checkpointed, latest_checkpoint_id) differ from the log{lost_note}"),
                         wit(json!({"stride": stride, "response": v, "expected": want, "checkpoints_missing_in_cache": cache_lost})),
                     );
-                    return;
+                    return None;
                 }
             }
             Err(e) => {
                 r.violation("C09/concurrent/cut_points_failed_after", &e, wit(json!(e)));
-                return;
+                return None;
             }
         }
     }
@@ -2103,11 +2392,498 @@ fn concurrent_case(cfg: &Cfg, r: &mut Report, rt: &tokio::runtime::Runtime, s: &
         r.distinct(Sched::interleaving_signature(&events));
     }
     if r.samples.len() < r.max_samples && jobs.len() >= 2 {
-        r.sample(json!({"case": idx, "mode": "concurrent", "threads": threads, "strides": strides, "noise_us": noise, "appender": appender,
-            "messages": m.count(), "jobs": jobs.len(), "checkpoints": n_ck, "cuts_checkpointed_more_than_once": dup}));
+        let mut smp = meta.clone();
+        smp["messages"] = json!(m.count());
+        smp["jobs"] = json!(jobs.len());
+        smp["checkpoints"] = json!(n_ck);
+        smp["cuts_checkpointed_more_than_once"] = json!(dup);
+        smp["same_cut_summary_pairs_equal"] = json!(sum_seen.pairs_equal);
+        r.sample(smp);
+    }
+    Some(JobsSeen {
+        jobs: jobs.len(),
+        cuts_checkpointed_more_than_once: dup,
+        same_cut_pairs_equal: sum_seen.pairs_equal,
+    })
+}
+
+
+// ---------------------------------------------------------------------------------------------
+// several jobs for ONE cut point: every job is spawned before the first checkpoint of the cut
+// exists; some of them run after it
+
+/// Tasks that occupy the blocking pool of a runtime until they are released by number. An HTTP
+/// auto / schedule request answers right after the job-spawned frame and runs the job on the
+/// blocking pool; on a runtime with ONE blocking thread that is held by blocker 0, the jobs of
+/// later requests queue up — all spawned, none run — and
+/// run one at a time once it is released, each after the previous one's checkpoint exists.
+struct Blockers {
+    /// (blockers 0..n are released, blockers that have started)
+    st: std::sync::Mutex<(u64, u64)>,
+    cv: std::sync::Condvar,
+}
+
+impl Blockers {
+    fn new() -> Arc<Blockers> {
+        Arc::new(Blockers {
+            st: std::sync::Mutex::new((0, 0)),
+            cv: std::sync::Condvar::new(),
+        })
+    }
+    fn lock(&self) -> std::sync::MutexGuard<'_, (u64, u64)> {
+        self.st.lock().unwrap_or_else(|e| e.into_inner())
+    }
+    /// the body of blocker `n`: returns when `release_to(m)` with m > n was called (or after 60 s)
+    fn task(self: &Arc<Blockers>, n: u64) -> impl FnOnce() + Send + 'static {
+        let b = self.clone();
+        move || {
+            let deadline = Instant::now() + Duration::from_secs(60);
+            let mut st = b.lock();
+            st.1 += 1;
+            b.cv.notify_all();
+            while st.0 <= n {
+                let now = Instant::now();
+                if now >= deadline {
+                    break;
+                }
+                st = b.cv.wait_timeout(st, deadline - now).unwrap_or_else(|e| e.into_inner()).0;
+            }
+        }
+    }
+    fn wait_started(&self, n: u64, timeout: Duration) -> bool {
+        let deadline = Instant::now() + timeout;
+        let mut st = self.lock();
+        while st.1 < n {
+            let now = Instant::now();
+            if now >= deadline {
+                return false;
+            }
+            st = self.cv.wait_timeout(st, deadline - now).unwrap_or_else(|e| e.into_inner()).0;
+        }
+        true
+    }
+    /// release blockers 0..m
+    fn release_to(&self, m: u64) {
+        let mut st = self.lock();
+        st.0 = st.0.max(m);
+        drop(st);
+        self.cv.notify_all();
     }
 }
 
+struct ReleaseOnDrop(Arc<Blockers>);
+impl Drop for ReleaseOnDrop {
+    fn drop(&mut self) {
+        self.0.release_to(u64::MAX);
+    }
+}
+
+#[derive(Clone, Debug)]
+struct SameCutPlan {
+    messages: usize,
+    density: u64,
+    stride: u64,
+    /// bit 0: the cuts of a first part of the thread are auto-checkpointed, then the thread grows;
+    /// bit 1: a manual checkpoint sits on some message boundary
+    earlier: u8,
+    max_new: u32,
+    /// per job: (auto.schedule instead of auto, block_on_inflight)
+    ops: Vec<(bool, bool)>,
+    /// 0 = HTTP, all jobs spawned first and then run one at a time (in request order);
+    /// 1 = HTTP requests back to back, jobs run in the background as they come;
+    /// 2 = store API, one thread per call, started together
+    mode: u8,
+    /// a schedule(execute=false) call leaves a pending job for the cut before the others start
+    pending_first: bool,
+    /// mode 0, after the spawns and before the runs: 0 nothing, 1 messages appended, 2 manual
+    /// checkpoint on the same cut, 3 manual checkpoint on an earlier message boundary
+    between: u8,
+    noise_us: u64,
+}
+
+impl SameCutPlan {
+    fn random(cfg: &Cfg, rng: &mut Rng) -> SameCutPlan {
+        let messages = 2 + rng.usize(cfg.tier.pick(30, 70));
+        let stride = (*rng.pick(&[1u64, 2, 2, 3, 5, 7])).min(messages as u64);
+        let k = 2 + rng.usize(3);
+        let mode = *rng.pick(&[0u8, 0, 0, 1, 2]);
+        SameCutPlan {
+            messages,
+            density: *rng.pick(&[0u64, 0, 20, 40]),
+            stride,
+            earlier: rng.below(4) as u8,
+            max_new: *rng.pick(&[1u32, 1, 1, 2, 3]),
+            ops: (0..k).map(|_| (rng.chance(1, 3), rng.chance(1, 8))).collect(),
+            mode,
+            pending_first: rng.chance(1, 4),
+            between: *rng.pick(&[0u8, 0, 1, 2, 3]),
+            noise_us: *rng.pick(&[0u64, 300, 2000]),
+        }
+    }
+    fn describe(&self) -> Value {
+        let mode = ["http_spawn_all_then_run_one_at_a_time", "http_back_to_back", "api_threads"][self.mode.min(2) as usize];
+        let between = ["nothing", "messages_appended", "manual_checkpoint_same_cut", "manual_checkpoint_earlier_boundary"][self.between.min(3) as usize];
+        let jobs: Vec<Value> = self.ops.iter().map(|(s, b)| json!({"op": if *s {"schedule"} else {"auto"}, "block_on_inflight": b})).collect();
+        json!({"messages": self.messages, "other_frame_density_pct": self.density, "stride": self.stride, "earlier_checkpoints": self.earlier,
+               "max_new": self.max_new, "jobs": jobs, "mode": mode, "pending_job_first": self.pending_first, "between_spawns_and_runs": between,
+               "noise_us": self.noise_us})
+    }
+}
+
+fn same_cut_run(r: &mut Report, rt: &tokio::runtime::Runtime, s: &Arc<Sched>, rng: &mut Rng, stats: &mut Stats, plan: &SameCutPlan, meta0: Value) {
+    let t_start = Instant::now();
+    let store = Store::new("c09s");
+    let app = match App::open(&store, None) {
+        Ok(a) => a,
+        Err(e) => {
+            r.inconclusive(&format!("same cut: cannot open engine: {e}"));
+            return;
+        }
+    };
+    let Ok(thread) = app.store().ensure_default() else {
+        return;
+    };
+    // mode 0 needs a runtime whose blocking pool has one thread (see `Blockers`); declared before the
+    // blockers' guard so that every blocker is released before the runtime is dropped
+    let rt_one = if plan.mode == 0 {
+        match tokio::runtime::Builder::new_multi_thread().worker_threads(2).max_blocking_threads(1).enable_all().build() {
+            Ok(x) => Some(x),
+            Err(e) => {
+                r.inconclusive(&format!("same cut: cannot build a runtime: {e}"));
+                return;
+            }
+        }
+    } else {
+        None
+    };
+    let blockers = Blockers::new();
+    let _release = ReleaseOnDrop(blockers.clone());
+    let ctx = Ctx {
+        rt: rt_one.as_ref().unwrap_or(rt),
+        store: &store,
+        app: app.clone(),
+        thread: thread.clone(),
+    };
+    let st = app.store();
+    let mut known = Known::default();
+    let stride = plan.stride.max(1);
+    s.reset();
+    grow(&ctx, &mut known, rng, plan.messages, "c09s", plan.density);
+    if plan.earlier & 1 != 0 {
+        let _ = st.compaction_auto_v1(
+            &thread,
+            CompactionAutoV1Request {
+                stride_messages: Some(stride),
+                max_new_checkpoints: Some(32),
+                dry_run: Some(false),
+                actor_id: "rv-setup".into(),
+                origin: "rv".into(),
+            },
+        );
+        let more = stride as usize + rng.usize(2 * stride as usize + 1);
+        grow(&ctx, &mut known, rng, more, "c09s", plan.density);
+    }
+    let manual_ids: std::cell::RefCell<BTreeSet<String>> = std::cell::RefCell::new(BTreeSet::new());
+    let manual_at = |to_seq: u64, note: &str| {
+        let res = call_manual(
+            &ctx,
+            &thread,
+            &ManualReq {
+                class: "boundary_seq",
+                markdown: Some(format!("manual summary ({note})")),
+                artifact: None,
+                to_message_id: None,
+                to_seq: Some(to_seq),
+                stride: None,
+                http: false,
+            },
+        );
+        if let Some(id) = res.ok().and_then(|v| v.get("checkpoint_id").and_then(|x| x.as_str()).map(|x| x.to_string())) {
+            manual_ids.borrow_mut().insert(id);
+        }
+    };
+    if plan.earlier & 2 != 0 {
+        if let Ok((_, m)) = current_model(&ctx) {
+            if !m.msgs.is_empty() {
+                manual_at(rng.pick(&m.msgs).0, "setup");
+            }
+        }
+    }
+    let Ok((_, mut m)) = current_model(&ctx) else {
+        r.inconclusive("same cut: log unreadable after the setup");
+        return;
+    };
+    if m.plan(stride, plan.max_new as u64).is_empty() {
+        grow(&ctx, &mut known, rng, stride as usize, "c09s", 0);
+        match current_model(&ctx) {
+            Ok((_, m2)) => m = m2,
+            Err(_) => return,
+        }
+    }
+    let planned = m.plan(stride, plan.max_new as u64);
+    if planned.is_empty() {
+        stats.c("same_cut_cases_without_a_plannable_cut");
+        return;
+    }
+    let baseline = m.n_frames;
+    let describe = |schedule: bool, block: bool, execute: bool, transport: &str| {
+        json!({"op": if schedule {"schedule"} else {"auto"}, "stride": stride, "max_new": plan.max_new, "dry_run": false,
+               "execute": execute, "block_on_inflight": block, "transport": transport})
+    };
+    let req = |schedule: bool, block: bool, execute: bool, http: bool| ExecReq {
+        schedule,
+        stride: Some(stride),
+        max_new: Some(plan.max_new),
+        block: Some(block),
+        execute: Some(execute),
+        dry_run: Some(false),
+        http,
+    };
+    let job_of = |v: &Value| -> Option<String> {
+        let state = v.get("status").or_else(|| v.get("decision")).and_then(|x| x.as_str()).unwrap_or("");
+        if state == "spawned" || state == "scheduled" {
+            v.get("job_id").and_then(|x| x.as_str()).map(|x| x.to_string())
+        } else {
+            None
+        }
+    };
+    s.reset();
+    s.record(true, &["log.append.locked"]);
+    if std::env::var("RV_C09_TRACE").is_ok() {
+        s.record(true, &[]);
+    }
+    if plan.noise_us > 0 {
+        let n = plan.noise_us;
+        s.set_noise(
+            rng.next_u64(),
+            &[
+                ("cache.scan", n),
+                ("artifact.tmp", n),
+                ("artifact.renamed", n),
+                ("log.append.enter", n / 2),
+                ("cont.cache.exit", n / 2),
+                ("cache.comp.written", n),
+            ],
+        );
+    }
+    let log_from = store.log_bytes_settled().len();
+    let mut calls: Vec<(Value, Result<Value, String>)> = Vec::new();
+    let mut panicked = false;
+    if plan.pending_first {
+        let http = rng.bool();
+        let res = call_exec(&ctx, &thread, &req(true, false, false, http));
+        calls.push((describe(true, false, false, if http { "http" } else { "api" }), res));
+    }
+    match plan.mode {
+        0 | 1 => {
+            let mut held = false;
+            if let Some(rt1) = rt_one.as_ref() {
+                std::mem::drop(rt1.spawn_blocking(blockers.task(0)));
+                held = blockers.wait_started(1, Duration::from_secs(5));
+                if !held {
+                    blockers.release_to(u64::MAX);
+                    stats.c("same_cut_blocker_did_not_start");
+                }
+            }
+            let mut job_ids: Vec<String> = Vec::new();
+            for (schedule, block) in &plan.ops {
+                let res = call_exec(&ctx, &thread, &req(*schedule, *block, true, true));
+                let job = res.as_ref().ok().and_then(&job_of);
+                calls.push((describe(*schedule, *block, true, "http"), res));
+                if let Some(job) = job {
+                    job_ids.push(job);
+                }
+            }
+            if held {
+                // every job is spawned; none can have run
+                let ran = truth::parse_log(&store.log_bytes_settled())
+                    .map(|f| truth::stream(&f, "continuity", &thread).iter().skip(baseline).any(|f| matches!(f.ty(), "continuity_compaction_checkpoint_created" | "continuity_job_ended")))
+                    .unwrap_or(true);
+                if ran {
+                    r.inconclusive("same cut: a job ran although the blocking pool was held");
+                    return;
+                }
+                // somebody else acts after the spawns and before the runs
+                match plan.between {
+                    1 => {
+                        for k in 0..1 + rng.usize(3) {
+                            let (actor, content) = rich_message(rng, 20_000 + k as u64);
+                            let _ = st.append_message(&thread, actor, "rv".into(), content);
+                        }
+                    }
+                    2 => manual_at(rng.pick(&planned).to_seq, "same cut, after the spawns and before the runs"),
+                    3 => {
+                        let low = planned.iter().map(|c| c.to_seq).min().unwrap_or(0);
+                        let earlier: Vec<u64> = m.msgs.iter().map(|x| x.0).filter(|q| *q < low).collect();
+                        if !earlier.is_empty() {
+                            manual_at(*rng.pick(&earlier), "earlier boundary, after the spawns and before the runs");
+                        }
+                    }
+                    _ => {}
+                }
+                // the pool's one thread now runs the queued jobs one after the other
+                blockers.release_to(u64::MAX);
+                for job in &job_ids {
+                    if !wait_job_end(&ctx, log_from, job) {
+                        r.inconclusive("same cut: a released summarizer job did not end within 10 s");
+                        return;
+                    }
+                }
+                if job_ids.len() >= 2 {
+                    stats.c("same_cut_cases_all_jobs_spawned_before_any_ran");
+                }
+            }
+            blockers.release_to(u64::MAX);
+            for j in &job_ids {
+                if !wait_job_end(&ctx, log_from, j) {
+                    r.inconclusive("same cut: an HTTP-started summarizer job did not end within 10 s");
+                    return;
+                }
+            }
+        }
+        _ => {
+            let barrier = Arc::new(std::sync::Barrier::new(plan.ops.len()));
+            let mut handles = Vec::new();
+            for (t, (schedule, block)) in plan.ops.iter().cloned().enumerate() {
+                let app = app.clone();
+                let thread = thread.clone();
+                let barrier = barrier.clone();
+                let max_new = plan.max_new;
+                let d = describe(schedule, block, true, "api");
+                handles.push(std::thread::spawn(move || {
+                    let st = app.store();
+                    barrier.wait();
+                    let res = if schedule {
+                        st.compaction_auto_schedule_v1(
+                            &thread,
+                            CompactionAutoScheduleV1Request {
+                                stride_messages: Some(stride),
+                                max_new_checkpoints: Some(max_new),
+                                block_on_inflight: Some(block),
+                                execute: Some(true),
+                                dry_run: Some(false),
+                                actor_id: format!("rv-t{t}"),
+                                origin: "rv".into(),
+                            },
+                        )
+                        .map(|x| serde_json::to_value(x).unwrap_or(Value::Null))
+                    } else {
+                        st.compaction_auto_v1(
+                            &thread,
+                            CompactionAutoV1Request {
+                                stride_messages: Some(stride),
+                                max_new_checkpoints: Some(max_new),
+                                dry_run: Some(false),
+                                actor_id: format!("rv-t{t}"),
+                                origin: "rv".into(),
+                            },
+                        )
+                        .map(|x| serde_json::to_value(x).unwrap_or(Value::Null))
+                    };
+                    (d, res)
+                }));
+            }
+            for h in handles {
+                match h.join() {
+                    Ok(v) => calls.push(v),
+                    Err(_) => panicked = true,
+                }
+            }
+        }
+    }
+    let events = s.take_events();
+    s.reset();
+    if std::env::var("RV_C09_TRACE").is_ok() {
+        eprintln!("same_cut {} workload took {:.3}s", plan.describe(), t_start.elapsed().as_secs_f64());
+        for e in &events {
+            eprintln!("  ev t{} {} {}", e.thread, e.point, e.ctx.chars().take(50).collect::<String>());
+        }
+    }
+    let mut meta = meta0;
+    meta["plan"] = plan.describe();
+    meta["messages_before_the_jobs"] = json!(m.count());
+    meta["checkpoints_before_the_jobs"] = json!(m.ckpts.len());
+    meta["planned_cuts"] = planned_json(&planned);
+    stats.c("same_cut_cases");
+    stats.n("same_cut_calls", calls.len() as u64);
+    let manual_set: BTreeSet<String> = manual_ids.borrow().clone();
+    if let Some(seen) = judge_jobs(r, &ctx, stats, &calls, panicked, baseline, &[stride], &events, &manual_set, &meta) {
+        stats.n("same_cut_jobs", seen.jobs as u64);
+        stats.n("same_cut_cuts_checkpointed_more_than_once", seen.cuts_checkpointed_more_than_once);
+        stats.n("same_cut_cases_summary_pairs_text_equal", seen.same_cut_pairs_equal);
+        if seen.cuts_checkpointed_more_than_once > 0 {
+            stats.nontrivial += 1;
+            stats.c("same_cut_cases_with_a_cut_checkpointed_more_than_once");
+            r.distinct_str(&format!(
+                "samecut|{}|{}|{}|{}|{}|{}|{}",
+                plan.mode,
+                plan.earlier,
+                plan.ops.len(),
+                plan.max_new,
+                plan.between,
+                plan.pending_first,
+                m.ckpts.len().min(3)
+            ));
+        }
+        // repeated afterwards: the same request once more, then requests that can have nothing to do
+        // (stride beyond the thread) — those append nothing, also while a job of the cut is pending
+        let count = current_model(&ctx).map(|(_, m)| m.count()).unwrap_or(0);
+        let mut beyond_sched = req(true, true, true, false);
+        beyond_sched.stride = Some(count + 1);
+        let mut beyond_auto = req(false, true, true, rng.bool());
+        beyond_auto.stride = Some(count + 1);
+        for (k, q) in [req(true, true, true, false), beyond_sched, beyond_auto].iter().enumerate() {
+            let mut w = meta.clone();
+            w["repeat_after_the_jobs"] = json!(k);
+            match run_exec(r, &ctx, stats, q, &w) {
+                Some(seen) if seen.ok => {
+                    if seen.planned_empty {
+                        stats.c("same_cut_repeats_with_nothing_to_do_zero_bytes");
+                    }
+                }
+                _ => break,
+            }
+        }
+    }
+}
+
+fn same_cut_case(cfg: &Cfg, r: &mut Report, rt: &tokio::runtime::Runtime, s: &Arc<Sched>, rng: &mut Rng, idx: u64, stats: &mut Stats) {
+    let plan = SameCutPlan::random(cfg, rng);
+    same_cut_run(r, rt, s, rng, stats, &plan, json!({"case": idx, "mode": "same_cut"}));
+}
+
+/// Directed: two (three) auto requests over HTTP for one cut, every job spawned before any of them
+/// runs, then run one after the other — on a thread without / with earlier checkpoints.
+fn directed_same_cut(r: &mut Report, rt: &tokio::runtime::Runtime, s: &Arc<Sched>, stats: &mut Stats, only: Option<u64>) {
+    let variants: [(usize, u64, u8, u32, usize, u8); 4] = [
+        // messages, stride, earlier, max_new, jobs, between
+        (3, 2, 0, 1, 2, 0),
+        (7, 3, 1, 1, 2, 0),
+        (9, 2, 2, 2, 3, 1),
+        (6, 3, 0, 1, 2, 2),
+    ];
+    // the last variant also leaves a pending (execute=false) job for the cut before the others start
+    for (v, (messages, stride, earlier, max_new, jobs, between)) in variants.iter().cloned().enumerate() {
+        if only.map(|o| o != v as u64).unwrap_or(false) {
+            continue;
+        }
+        let plan = SameCutPlan {
+            messages,
+            density: 0,
+            stride,
+            earlier,
+            max_new,
+            ops: vec![(false, false); jobs],
+            mode: 0,
+            pending_first: v == 3,
+            between,
+            noise_us: 0,
+        };
+        let mut rng = Rng::derive(0xC09, v as u64);
+        same_cut_run(r, rt, s, &mut rng, stats, &plan, json!({"directed": "same_cut", "variant": v}));
+        stats.c("directed_cases");
+    }
+}
 
 // ---------------------------------------------------------------------------------------------
 // directed: auto.schedule plans twice (decision plan, then job_spawned plan) and executes the first
@@ -2255,13 +3031,18 @@ pub fn run(cfg: &Cfg) -> i32 {
          stride {default,0,1,2,3,5,7,16,10000,count,count+1,count/2,count/33,u64::MAX} x limit {default,0,1,2,3,32,33,u32::MAX} x \
          max_new {default,0,1,2,3,32,40,u32::MAX} x block_on_inflight x execute x dry_run x transport {store API, HTTP}; every \
          answer and every appended byte is compared with a truth model computed from the raw log; plus 2-8 threads \
-         calling auto/schedule concurrently under seeded noise. non-trivial = a call that returned cut points, \
-         executed a job, accepted a manual checkpoint, compared fork texts, or >=2 concurrent jobs; distinct = \
-         parameter/outcome shape (sequential) or hook-point interleaving signature (concurrent)",
+         calling auto/schedule concurrently under seeded noise; plus 2-4 jobs for ONE cut point (directed + seeded: HTTP with all \
+         jobs spawned before any runs and then released one at a time in a seeded order, HTTP back to back, API threads started \
+         together; thread with/without earlier auto/manual checkpoints, pending job first, messages / manual checkpoints placed \
+         between two runs); in every log each auto summary's base (strictly earlier cut), delta window and, for summaries of one \
+         cut with the same earlier checkpoints visible, text equality are judged. non-trivial = a call that returned cut points, \
+         executed a job, accepted a manual checkpoint, compared fork texts, >=2 concurrent jobs, or a cut checkpointed more than \
+         once; distinct = parameter/outcome shape (sequential, same-cut) or hook-point interleaving signature (concurrent)",
     );
     r.assume("hook points do not change behaviour beyond timing");
     r.assume("inflight detection is judged only when the newest un-ended job lies within the last 400 frames / 400 KiB of the thread (documented best-effort window is 512 frames / 512 KiB)");
     r.assume("threads stay below 10 000 frames (compaction.status does not terminate beyond that: C04 finding, not judged here)");
+    r.assume("two summaries of one cut are compared only when no checkpoint frame of an earlier cut lies between the earlier job's spawn frame and the later checkpoint frame (otherwise the jobs may legitimately have seen different bases); when the derived checkpoint cache is found lossy afterwards (known read-side finding) a missing / different base is not blamed on the summarizer");
     let s = sched();
     let rt = runtime(4);
     let mut stats = Stats::default();
@@ -2271,8 +3052,12 @@ pub fn run(cfg: &Cfg) -> i32 {
         let seed = doc.get("seed").and_then(|x| x.as_u64()).unwrap_or(cfg.seed);
         let w = doc.get("witness").cloned().unwrap_or(Value::Null);
         let case = w.get("case").or_else(|| w.pointer("/at/case")).and_then(|x| x.as_u64());
-        if w.get("directed").is_some() {
-            directed_schedule_plans_twice(&mut r, &rt, &s, &mut stats);
+        if let Some(d) = w.get("directed") {
+            if d.as_str() == Some("same_cut") {
+                directed_same_cut(&mut r, &rt, &s, &mut stats, w.get("variant").and_then(|x| x.as_u64()));
+            } else {
+                directed_schedule_plans_twice(&mut r, &rt, &s, &mut stats);
+            }
             stats.flush(&mut r);
             return r.finish(cfg);
         }
@@ -2285,6 +3070,7 @@ pub fn run(cfg: &Cfg) -> i32 {
     }
 
     directed_schedule_plans_twice(&mut r, &rt, &s, &mut stats);
+    directed_same_cut(&mut r, &rt, &s, &mut stats, None);
     let max_cases = cfg.tier.pick(360u64, 1_000_000u64);
     let mut case = 0u64;
     while case < max_cases && !r.over(cfg) {
@@ -2306,10 +3092,17 @@ pub fn run(cfg: &Cfg) -> i32 {
 
 fn one_case(cfg: &Cfg, r: &mut Report, rt: &tokio::runtime::Runtime, s: &Arc<Sched>, seed: u64, idx: u64, stats: &mut Stats) {
     let mut rng = Rng::derive(seed, idx);
-    if idx % 4 == 3 {
+    let t0 = Instant::now();
+    let kind = if idx % 4 == 3 {
         concurrent_case(cfg, r, rt, s, &mut rng, idx, stats, false);
+        "concurrent"
+    } else if idx % 8 == 5 {
+        same_cut_case(cfg, r, rt, s, &mut rng, idx, stats);
+        "same_cut"
     } else {
         s.reset();
         sequential_case(cfg, r, rt, &mut rng, idx, stats);
-    }
+        "sequential"
+    };
+    stats.n(&format!("wall_ms_in_{kind}_cases"), t0.elapsed().as_millis() as u64);
 }
